@@ -96,7 +96,9 @@ func (g *groundTruth) visit(v reflect.Value, parent int, required bool) {
 		}
 		p := parent
 		if isNodeStruct(v.Type()) {
-			p = g.add(v, parent, required || v.Type().Name() == "BlockStmt")
+			// a literal held by value (the key of a property, method or binding item) is an expression node of the tree
+			lit := v.Type().Name() == "LiteralExpr" && v.CanAddr() && v.FieldByName("Data").Len() > 0
+			p = g.add(v, parent, required || lit || v.Type().Name() == "BlockStmt")
 		}
 		g.fields(v, p)
 	case reflect.Slice:
@@ -459,7 +461,7 @@ func init() {
 	register(&engine.Check{
 		ID: "C18", Level: "exploration",
 		Rule:        "every tree js.Parse returns for the JS seed catalogue + 14 class/object/template/meta-property programs (× 4 Options), every accepted string ≤4 (5) atoms over the JS core alphabet and ≤2 (3) over the full one, and every accepted single-edit neighbour of the seeds; per tree: Walk with a recording visitor that descends everywhere, that returns nil at the i-th Enter for every i (trees ≤48 Enter calls), and at every pair (i,j) (≤16); compared with a reflection walk of the same tree (follows interface, pointer, struct and slice fields; excludes Scope tables and Var.Link): every statement/expression/binding/identifier node entered exactly once unless cut by the policy, nothing foreign entered, Exit exactly once per non-nil Enter in stack order, cut subtrees not entered",
-		Assumptions: []string{"required nodes = values held in IStmt/IExpr/IBinding fields, *Var and BlockStmt; auxiliary structs (Params, Arg, Element, PropertyName, ClassElementName, …) may be entered but need not be", "a node passed by value (DotExpr.Y) is identified by the source bytes it points to"},
+		Assumptions: []string{"required nodes = values held in IStmt/IExpr/IBinding fields, *Var, BlockStmt and non-empty LiteralExpr values embedded in a struct (literal property/method/binding keys); auxiliary structs (Params, Arg, Element, PropertyName, ClassElementName, …) may be entered but need not be", "a node passed by value (DotExpr.Y) is identified by the source bytes it points to"},
 		Setup:       c18Setup, Work: c18Work, Finish: c18Finish,
 	})
 }
